@@ -476,7 +476,7 @@ func (x *Exec) specEnv(fr *Frame, st *State, oldHeap map[string]Term) *SpecEnv {
 	if oh == nil {
 		oh = map[string]Term{}
 	}
-	o := &SpecEnv{x: x, st: st.viewWithHeap(oh), vars: env.vars, pkg: env.pkg, lets: env.lets}
+	o := &SpecEnv{x: x, st: st.viewWithHeap(oh), vars: env.vars, pkg: env.pkg, lets: env.lets, events: st.events}
 	env.old = o
 	return env
 }
@@ -585,7 +585,7 @@ func (x *Exec) callByContract(fr *Frame, st *State, in ssa.Instruction, fn *ssa.
 		o := x.newObl(fnForObl, "pre@"+ct.Key, cl.Label()+" @ "+x.oblLabels[in], unionProps(cl.Props, []string{"C07"}), x.posStr(in.Pos()))
 		st.check(o, t)
 	}
-	if ct.Flags["event"] || ct.IsIface {
+	{
 		callee0 := ct.Key
 		if i := strings.LastIndex(callee0, "."); i >= 0 {
 			callee0 = callee0[i+1:]
@@ -710,15 +710,17 @@ func (x *Exec) havocLoc(st *State, env *SpecEnv, m string) {
 				st.hset(names[k], Store(arr, v.Parts[0].T, x.enc.Fresh("havoc.elems", elemSort(as[k]))))
 			}
 		case *types.Map:
+			// a nil map has no contents to modify
+			isNil := Eq(v.T, TNull)
 			dom, domS, vals, valS, ln := st.mapArrs(u)
 			d := st.hget(dom, domS)
-			st.hset(dom, Store(d, v.T, x.enc.Fresh("havoc.dom", elemSort(domS))))
+			st.hset(dom, Ite(isNil, d, Store(d, v.T, x.enc.Fresh("havoc.dom", elemSort(domS)))))
 			for k := range vals {
 				a := st.hget(vals[k], valS[k])
-				st.hset(vals[k], Store(a, v.T, x.enc.Fresh("havoc.vals", elemSort(valS[k]))))
+				st.hset(vals[k], Ite(isNil, a, Store(a, v.T, x.enc.Fresh("havoc.vals", elemSort(valS[k])))))
 			}
 			l := st.hget(ln, SArr(SRef, SInt))
-			st.hset(ln, Store(l, v.T, x.enc.Fresh("havoc.len", SInt)))
+			st.hset(ln, Ite(isNil, l, Store(l, v.T, x.enc.Fresh("havoc.len", SInt))))
 		default:
 			x.abort("modifies %s: not a slice or map", m)
 		}
